@@ -10,7 +10,12 @@ import vlib
 ENVS = [None, "out", "@R/w/c/absdir", "./x/../bindings/"]
 DIRS = ["./bindings", "elsewhere/deep", "@R/w/c/abs2", "../sibling"]
 UNRELATED = [("@R/w/c/bindings/unrelated.ts", "keep me"), ("@R/w/c/bindings/sub/other.txt", "and me"),
-             ("@R/w/c/out/keep.ts", "x"), ("@R/w/readme.md", "outside"), ("@R/w/c/elsewhere/deep/z.ts", "z")]
+             ("@R/w/c/out/keep.ts", "x"), ("@R/w/readme.md", "outside"), ("@R/w/c/elsewhere/deep/z.ts", "z"),
+             # neighbours of the targets: the same stem under another extension, a backup, a hidden twin (a write that goes
+             # through a temporary or backup name next to the target would touch these)
+             ("@R/w/c/bindings/shared.tmp", "tmp twin"), ("@R/w/c/bindings/C.tmp", "tmp twin of C"), ("@R/w/c/bindings/C.ts~", "backup"),
+             ("@R/w/c/bindings/.C.ts", "hidden"), ("@R/w/c/bindings/sub/D.tmp", "tmp twin of D"), ("@R/w/c/bindings/shared.ts.tmp", "tmp"),
+             ("@R/w/c/bindings/shared.bak", "bak"), ("@R/w/c/out/shared.tmp", "tmp twin, other base")]
 
 
 def documented_path(t):
